@@ -41,11 +41,11 @@ M = [
  ("weights_int_truncate", "C02", "flowpaths/kflowdecomp.py",
   "                round(weights_sol_dict[i])\n                if self.weight_type == int", "                int(weights_sol_dict[i])\n                if self.weight_type == int"),
  ("accept_two_tokens", "C20", "flowpaths/utils/graphutils.py",
-  "        if len(elements) != 3:\n", "        if len(elements) > 3:\n"),
+  "        if len(elements) != 3:\n", "        if len(elements) == 2:\n            elements = elements + ['1']\n        if len(elements) != 3:\n"),
  ("constraint_dedup_by_set", "C20", "flowpaths/utils/graphutils.py",
   "                seq_key = tuple(nodes_seq)\n", "                seq_key = tuple(sorted(nodes_seq))\n"),
- ("hierholzer_splice_last_occurrence", "C14", "flowpaths/abstractwalkmodeldigraph.py",
-  "                closed_walk_start_idx = walk.index(potential_vertex)\n", "                closed_walk_start_idx = len(walk) - 1 - walk[::-1].index(potential_vertex)\n"),
+ ("hierholzer_splice_drops_return", "C14", "flowpaths/abstractwalkmodeldigraph.py",
+  "                walk[closed_walk_start_idx + 1:closed_walk_start_idx + 1] = closed_walk[1:]\n", "                walk[closed_walk_start_idx + 1:closed_walk_start_idx + 1] = closed_walk[1:-1]\n"),
  ("residual_truncates", "C14", "flowpaths/abstractwalkmodeldigraph.py",
   "                multiplicity = round(self.edge_vars_sol[edge_key])\n", "                multiplicity = int(self.edge_vars_sol[edge_key])\n"),
  ("mccormick_drop_d", "C12", "flowpaths/utils/solverwrapper.py",
